@@ -3,7 +3,7 @@
    message); what decodes is well-formed, hence re-encodes to a fixpoint. *)
 From Coq Require Import String.
 From Dht Require Import Base Msg Compact Bencode Krpc Int160Proofs CompactProofs BencodeProofs.
-From DhtGen Require Import Params KrpcSchema.
+From DhtGen Require Import KrpcSchema.
 From Coq Require Import Lia ZifyN ZifyNat ZifyBool Arith.
 Close Scope string_scope.
 Local Arguments firstn : simpl never.
@@ -1046,117 +1046,3 @@ Proof. intros H. unfold argsF in H. each_in H ltac:(exact I). Qed.
 Lemma retF_flat fd : In fd retF -> match f_kind fd with KPtrStruct _ => False | _ => True end.
 Proof. intros H. unfold retF in H. each_in H ltac:(exact I). Qed.
 
-(* ================================================================================================
-   Record projections by Go field name: setting one field, reading them all
-   ================================================================================================ *)
-(* the nil-ness flag of a byte slice: a nil slice has no bytes *)
-Definition inv_args (x : xargs) : Prop := snd x = false -> a_salt (fst x) = [].
-Definition inv_ret (x : xret) : Prop := snd x = false -> r_v (fst x) = [].
-Definition inv_msg (x : xmsg) : Prop :=
-  (m_a (x_msg x) = None -> x_salt_nn x = false) /\ (m_r (x_msg x) = None -> x_rv_nn x = false).
-
-Ltac other_fields H' Hne :=
-  each_in H' ltac:(first [ exfalso; apply Hne; reflexivity | vm_compute; reflexivity ]).
-
-Lemma args_set_law x fd fv :
-  In fd argsF -> get_args (f_name fd) x = Some fv ->
-  forall acc, inv_args acc ->
-  exists acc', set_args (f_name fd) fv acc = Some acc' /\ inv_args acc' /\ get_args (f_name fd) acc' = Some fv /\
-    (forall fd', In fd' argsF -> f_name fd' <> f_name fd -> get_args (f_name fd') acc' = get_args (f_name fd') acc).
-Proof.
-  intros H Hg acc Hi. destruct x as [a nn]. destruct acc as [a' nn']. unfold argsF in H. unfold inv_args in *. cbn [fst snd] in *.
-  destruct nn;
-  each_in H ltac:(
-    vm_compute in Hg; injection Hg as <-;
-    eexists; split; [vm_compute; reflexivity|];
-    split; [cbn [fst snd a_salt]; first [exact Hi | intros; congruence | reflexivity]|];
-    split; [vm_compute; reflexivity|];
-    let fd' := fresh "fd'" in let H' := fresh "H'" in let Hne := fresh "Hne" in
-    intros fd' H' Hne; unfold argsF in H'; other_fields H' Hne).
-Qed.
-
-Lemma ret_set_law x fd fv :
-  In fd retF -> get_ret (f_name fd) x = Some fv ->
-  forall acc, inv_ret acc ->
-  exists acc', set_ret (f_name fd) fv acc = Some acc' /\ inv_ret acc' /\ get_ret (f_name fd) acc' = Some fv /\
-    (forall fd', In fd' retF -> f_name fd' <> f_name fd -> get_ret (f_name fd') acc' = get_ret (f_name fd') acc).
-Proof.
-  intros H Hg acc Hi. destruct x as [a nn]. destruct acc as [a' nn']. unfold retF in H. unfold inv_ret in *. cbn [fst snd] in *.
-  destruct nn;
-  each_in H ltac:(
-    vm_compute in Hg; injection Hg as <-;
-    eexists; split; [vm_compute; reflexivity|];
-    split; [cbn [fst snd r_v]; first [exact Hi | intros; congruence | reflexivity]|];
-    split; [vm_compute; reflexivity|];
-    let fd' := fresh "fd'" in let H' := fresh "H'" in let Hne := fresh "Hne" in
-    intros fd' H' Hne; unfold retF in H'; other_fields H' Hne).
-Qed.
-
-Lemma msg_set_law x fd fv :
-  In fd msgF -> get_msg (f_name fd) x = Some fv ->
-  forall acc, inv_msg acc ->
-  exists acc', set_msg (f_name fd) fv acc = Some acc' /\ inv_msg acc' /\ get_msg (f_name fd) acc' = Some fv /\
-    (forall fd', In fd' msgF -> f_name fd' <> f_name fd -> get_msg (f_name fd') acc' = get_msg (f_name fd') acc).
-Proof.
-  intros H Hg acc Hi. destruct x as [[q a t y r e ip ro v] ipnn snn rnn].
-  destruct acc as [[q' a' t' y' r' e' ip' ro' v'] ipnn' snn' rnn'].
-  unfold msgF in H. unfold inv_msg in *. cbn [x_msg m_a m_r x_salt_nn x_rv_nn] in *. destruct Hi as [Hi1 Hi2].
-  destruct a as [a|]; destruct r as [r|];
-  each_in H ltac:(
-    vm_compute in Hg; injection Hg as <-;
-    eexists; split; [vm_compute; reflexivity|];
-    split; [cbn [x_msg m_a m_r x_salt_nn x_rv_nn option_map fst];
-            split; first [exact Hi1 | exact Hi2 | intros; reflexivity | intros; discriminate]|];
-    split; [vm_compute; reflexivity|];
-    let fd' := fresh "fd'" in let H' := fresh "H'" in let Hne := fresh "Hne" in
-    intros fd' H' Hne; unfold msgF in H'; other_fields H' Hne).
-Qed.
-
-Ltac in_literal := cbn [In]; repeat (first [left; reflexivity | right]).
-
-Ltac spec_each H l :=
-  lazymatch l with
-  | nil => idtac
-  | cons ?fd ?l' =>
-      let Hn := fresh "Hf" in
-      assert (Hn := H fd ltac:(in_literal)); vm_compute in Hn; spec_each H l'
-  end.
-
-Lemma args_ext x acc :
-  inv_args x -> inv_args acc ->
-  (forall fd, In fd argsF -> get_args (f_name fd) acc = get_args (f_name fd) x) -> acc = x.
-Proof.
-  intros Hx Ha H.
-  destruct x as [[id ih tg tok port imp want noseed scrape v seq cas k salt sg] nn].
-  destruct acc as [[id' ih' tg' tok' port' imp' want' noseed' scrape' v' seq' cas' k' salt' sg'] nn'].
-  unfold inv_args in *. cbn [fst snd a_salt] in *. unfold argsF in H.
-  let l := eval unfold argsF in argsF in spec_each H l.
-  destruct nn, nn'; try specialize (Hx eq_refl); try specialize (Ha eq_refl); congruence.
-Qed.
-
-Lemma ret_ext x acc :
-  inv_ret x -> inv_ret acc ->
-  (forall fd, In fd retF -> get_ret (f_name fd) acc = get_ret (f_name fd) x) -> acc = x.
-Proof.
-  intros Hx Ha H.
-  destruct x as [[id nodes nodes6 tok values bfsd bfpe interval num samples v k sg seq] nn].
-  destruct acc as [[id' nodes' nodes6' tok' values' bfsd' bfpe' interval' num' samples' v' k' sg' seq'] nn'].
-  unfold inv_ret in *. cbn [fst snd r_v] in *. unfold retF in H.
-  let l := eval unfold retF in retF in spec_each H l.
-  destruct nn, nn'; try specialize (Hx eq_refl); try specialize (Ha eq_refl); congruence.
-Qed.
-
-Lemma msg_ext x acc :
-  inv_msg x -> inv_msg acc ->
-  (forall fd, In fd msgF -> get_msg (f_name fd) acc = get_msg (f_name fd) x) -> acc = x.
-Proof.
-  intros Hx Ha H.
-  destruct x as [[q a t y r e ip ro v] ipnn snn rnn].
-  destruct acc as [[q' a' t' y' r' e' ip' ro' v'] ipnn' snn' rnn'].
-  unfold inv_msg in *. cbn [x_msg m_a m_r x_salt_nn x_rv_nn] in *. unfold msgF in H.
-  destruct Hx as [Hx1 Hx2]. destruct Ha as [Ha1 Ha2].
-  let l := eval unfold msgF in msgF in spec_each H l.
-  destruct a, a', r, r'; cbn [option_map] in *;
-    try specialize (Hx1 eq_refl); try specialize (Hx2 eq_refl);
-    try specialize (Ha1 eq_refl); try specialize (Ha2 eq_refl); congruence.
-Qed.
